@@ -161,7 +161,7 @@ theorem list_lines_renamed (d0 : Char) (dr : List Char) (e0 : Char) (er : List C
     (ρ : List Char → List Char) (N : List Char → Prop) (hρ : RenOK ρ N)
     (hnl : ∀ c ∈ (d0 :: dr) ++ (e0 :: er), c ≠ '\n') (hnl' : ∀ c ∈ (d0' :: dr') ++ (e0' :: er'), c ≠ '\n')
     (ps ps' : List Piece) (hren : PiecesRen ρ N ps ps')
-    (hfree : ∀ p ∈ ps, p.free ((d0 :: dr) ++ (e0 :: er))) (hfree' : ∀ p ∈ ps', p.free ((d0' :: dr') ++ (e0' :: er')))
+    (hfree : ∀ p ∈ ps, p.fits d0 e0 (d0 :: dr) (e0 :: er)) (hfree' : ∀ p ∈ ps', p.fits d0' e0' (d0' :: dr') (e0' :: er'))
     (cfg : Cfg) (htl : N cfg.tlName) (hrm : N cfg.rmName)
     (hnu : NoUnwrapAttr (parseSource (renderAll (d0 :: dr) (e0 :: er) ps) (d0 :: dr) (e0 :: er))) :
     (listMarkers (renderAll (d0 :: dr) (e0 :: er) ps) (d0 :: dr) (e0 :: er) cfg).map
@@ -169,13 +169,14 @@ theorem list_lines_renamed (d0 : Char) (dr : List Char) (e0 : Char) (er : List C
     (listMarkers (renderAll (d0' :: dr') (e0' :: er') ps') (d0' :: dr') (e0' :: er')
         { cfg with tlName := ρ cfg.tlName, rmName := ρ cfg.rmName }).map
         (fun x => lineRangeOf (bytesOf (renderAll (d0' :: dr') (e0' :: er') ps')) (x.1.start, x.1.stop)) := by
-  have hok : ∀ p ∈ ps, p.ok d0 e0 := fun p hp => ok_of_free d0 dr e0 er p (hfree p hp)
-  have hok' : ∀ p ∈ ps', p.ok d0' e0' := fun p hp => ok_of_free d0' dr' e0' er' p (hfree' p hp)
+  have hok : ∀ p ∈ ps, p.ok d0 e0 := fun p hp => Piece.ok_of_fits _ _ _ _ p (hfree p hp)
+  have hok' : ∀ p ∈ ps', p.ok d0' e0' := fun p hp => Piece.ok_of_fits _ _ _ _ p (hfree' p hp)
   generalize hsrc : renderAll (d0 :: dr) (e0 :: er) ps = src at hnu
   generalize hsrc' : renderAll (d0' :: dr') (e0' :: er') ps' = src'
   obtain ⟨tk, _⟩ := tokenize_ok src (d0 :: dr) (e0 :: er) (by simp)
   obtain ⟨tk', _⟩ := tokenize_ok src' (d0' :: dr') (e0' :: er') (by simp)
-  have hT := tokNs_of_tnorm (d0 :: dr) (e0 :: er) (d0' :: dr') (e0' :: er') ρ N ps ps' [] _ _ hren hfree hfree'
+  have hT := tokNs_of_tnorm (d0 :: dr) (e0 :: er) (d0' :: dr') (e0' :: er') ρ N ps ps' [] _ _ hren
+    (fun p hp => Piece.strip_of_fits _ _ _ _ p (hfree p hp)) (fun p hp => Piece.strip_of_fits _ _ _ _ p (hfree' p hp))
     (tokens_tnorm d0 dr e0 er ps hok) (tokens_tnorm d0' dr' e0' er' ps' hok')
   rw [hsrc, hsrc'] at hT
   have hpw := chain_sameLines_n (d0 :: dr) (e0 :: er) (d0' :: dr') (e0' :: er') ρ N hρ hnl hnl'
